@@ -72,7 +72,35 @@ def build(t, sigs):
         # cast explicitly: operators applied to the proxy itself are forwarded to the *elements*
         from amaranth.hdl import Value
         return Value.cast(Array([build(e, sigs) for e in t[2:]])[build(t[1], sigs)])
+    if k == "arrp":
+        return Array([build(e, sigs) for e in t[2:]])[build(t[1], sigs)]
     raise ValueError(t)
+
+
+def proxy_terms(shape_quad, W):
+    """every single-operator form with an UNCAST array proxy as the main / second / selector operand (Python-level dispatch between
+    Value operators and the proxy's reflected operators), plus element-wise indexing and slicing of the proxy"""
+    a, b, c, d = (sig_leaf(i, sh) for i, sh in enumerate(shape_quad))
+    zw, zsg = shape_quad[2]
+    if zsg or zw not in (1, 2):
+        return
+    P = ("arrp", c, a, b) if zw == 1 else ("arrp", c, a, b, b, a)
+    seen = set()
+    for t in forms1(P, d, d, W, rich=False):
+        if t not in seen and try_shape(t) is not None:
+            seen.add(t)
+            yield t
+    for t in forms1(d, P, P, W, rich=False):
+        if t not in seen and try_shape(t) is not None and "arrp" in repr(t):
+            seen.add(t)
+            yield t
+    for op in BINARY:
+        t = ("b", op, P, ("arrp", c, b, a) if zw == 1 else ("arrp", c, b, a, a, b))
+        if try_shape(t) is not None:
+            yield t
+    for t in (("cat", P, d), ("cat", d, P), ("mux", d, P, a), ("mux", d, a, P), ("bsel", d, P, 1), ("wsel", d, P, 1)):
+        if t not in seen and try_shape(t) is not None:
+            yield t
 
 
 def shapes(W):
